@@ -295,6 +295,9 @@ var alphaNum = func() [256]bool {
 	for i := 'A'; i <= 'Z'; i++ {
 		t[i] = true
 	}
+	for i := '0'; i <= '9'; i++ {
+		t[i] = true
+	}
 	t['_'] = true
 	return t
 }()
